@@ -3,35 +3,66 @@
 #ifndef TETL_CMATH_SINH_HPP
 #define TETL_CMATH_SINH_HPP
 
+#include <etl/_config/all.hpp>
+
 #include <etl/_3rd_party/gcem/gcem.hpp>
 #include <etl/_concepts/integral.hpp>
+#include <etl/_type_traits/is_constant_evaluated.hpp>
+#include <etl/_type_traits/is_same.hpp>
 
 namespace etl {
 
-/// Computes the hyperbolic sine of arg
-/// \details https://en.cppreference.com/w/cpp/numeric/math/sinh
-/// \ingroup cmath
-[[nodiscard]] constexpr auto sinh(float arg) noexcept -> float { return etl::detail::gcem::sinh(arg); }
+namespace detail {
+
+template <typename T>
+[[nodiscard]] constexpr auto sinh(T arg) noexcept -> T
+{
+    if (not is_constant_evaluated()) {
+        if constexpr (is_same_v<T, float>) {
+#if __has_builtin(__builtin_sinhf)
+            return __builtin_sinhf(arg);
+#endif
+        }
+        if constexpr (is_same_v<T, double>) {
+#if __has_builtin(__builtin_sinh)
+            return __builtin_sinh(arg);
+#endif
+        }
+        if constexpr (is_same_v<T, long double>) {
+#if __has_builtin(__builtin_sinhl)
+            return __builtin_sinhl(arg);
+#endif
+        }
+    }
+    return detail::gcem::sinh(arg);
+}
+
+} // namespace detail
 
 /// Computes the hyperbolic sine of arg
 /// \details https://en.cppreference.com/w/cpp/numeric/math/sinh
 /// \ingroup cmath
-[[nodiscard]] constexpr auto sinhf(float arg) noexcept -> float { return etl::detail::gcem::sinh(arg); }
+[[nodiscard]] constexpr auto sinh(float arg) noexcept -> float { return etl::detail::sinh(arg); }
 
 /// Computes the hyperbolic sine of arg
 /// \details https://en.cppreference.com/w/cpp/numeric/math/sinh
 /// \ingroup cmath
-[[nodiscard]] constexpr auto sinh(double arg) noexcept -> double { return etl::detail::gcem::sinh(arg); }
+[[nodiscard]] constexpr auto sinhf(float arg) noexcept -> float { return etl::detail::sinh(arg); }
 
 /// Computes the hyperbolic sine of arg
 /// \details https://en.cppreference.com/w/cpp/numeric/math/sinh
 /// \ingroup cmath
-[[nodiscard]] constexpr auto sinh(long double arg) noexcept -> long double { return etl::detail::gcem::sinh(arg); }
+[[nodiscard]] constexpr auto sinh(double arg) noexcept -> double { return etl::detail::sinh(arg); }
 
 /// Computes the hyperbolic sine of arg
 /// \details https://en.cppreference.com/w/cpp/numeric/math/sinh
 /// \ingroup cmath
-[[nodiscard]] constexpr auto sinhl(long double arg) noexcept -> long double { return etl::detail::gcem::sinh(arg); }
+[[nodiscard]] constexpr auto sinh(long double arg) noexcept -> long double { return etl::detail::sinh(arg); }
+
+/// Computes the hyperbolic sine of arg
+/// \details https://en.cppreference.com/w/cpp/numeric/math/sinh
+/// \ingroup cmath
+[[nodiscard]] constexpr auto sinhl(long double arg) noexcept -> long double { return etl::detail::sinh(arg); }
 
 /// Computes the hyperbolic sine of arg
 /// \details https://en.cppreference.com/w/cpp/numeric/math/sinh
@@ -39,7 +70,7 @@ namespace etl {
 template <integral T>
 [[nodiscard]] constexpr auto sinh(T arg) noexcept -> double
 {
-    return etl::detail::gcem::sinh(static_cast<double>(arg));
+    return etl::detail::sinh(static_cast<double>(arg));
 }
 
 } // namespace etl
